@@ -500,3 +500,66 @@ Fixpoint xlayout_const (l : layout) (i : xinit) {struct i} : resz :=
       else gfold (xfield_init (fun s x => xlayout_const s x)) l kvs 0
   | _ => Errz 4
   end.
+
+(* ------------------------------------------------------------------ designs that assign through views
+   m.d.comb += view[path].eq(in_j)  /  m.d.sync += view[path][idx_signal].eq(in_j): every statement is a masked
+   update of the signal's next value, applied in program order (later statements win on shared bits);
+   comb statements start from the value held by the signal (init for bits no sync statement drives),
+   sync statements from the current value, at each rising clock edge. *)
+Record sasg := SAsg { sa_path : list Z; sa_in : nat; sa_ix : option nat }.
+
+Definition arr_len (l : layout) (p : list Z) : option nat :=
+  match path_chain l p with Some (_, Array _ n) => Some n | _ => None end.
+
+Definition asg_apply (l : layout) (env : list Z) (cur : Z) (a : sasg) : Z :=
+  let x := nth (sa_in a) env 0 in
+  match sa_ix a with
+  | None => match view_assign l cur (sa_path a) x with Okz v => v | Errz _ => cur end
+  | Some j =>
+      let i := nth j env 0 in
+      match arr_len l (sa_path a) with
+      | Some n => if (0 <=? i) && (i <? Z.of_nat n)
+                  then match view_assign l cur (sa_path a ++ [i]) x with Okz v => v | Errz _ => cur end
+                  else cur                       (* index past the end: no element is written *)
+      | None => cur
+      end
+  end.
+Definition asgs_apply (l : layout) (env : list Z) (cur : Z) (asgs : list sasg) : Z :=
+  fold_left (asg_apply l env) asgs cur.
+
+Inductive sstep := SData (sets : list (nat * Z)) | SClk (v : Z).
+Fixpoint set_nth (n : nat) (v : Z) (l : list Z) : list Z :=
+  match n, l with
+  | O, _ :: r => v :: r
+  | S m, x :: r => x :: set_nth m v r
+  | _, [] => []
+  end.
+(* value of the signal observed after every step *)
+Fixpoint synth_run (l : layout) (casgs sasgs : list sasg) (env : list Z) (clk st : Z) (steps : list sstep) : list Z :=
+  match steps with
+  | [] => []
+  | SData sets :: r =>
+      let env' := fold_left (fun e p => set_nth (fst p) (snd p) e) sets env in
+      asgs_apply l env' st casgs :: synth_run l casgs sasgs env' clk st r
+  | SClk v :: r =>
+      let st' := if (clk =? 0) && (v =? 1) then asgs_apply l env (asgs_apply l env st casgs) sasgs else st in
+      asgs_apply l env st' casgs :: synth_run l casgs sasgs env v st' r
+  end.
+Definition synth (l : layout) (tv : Z) (casgs sasgs : list sasg) (env0 : list Z) (steps : list sstep) : list Z :=
+  asgs_apply l env0 tv casgs :: synth_run l casgs sasgs env0 0 tv steps.
+
+(* Layout.format / ArrayLayout.format (run by Signal(layout)): builds shape(slice) for every field, recursively;
+   an enumeration with a view class and a signed shape refuses the unsigned slice (TypeError) *)
+Fixpoint format_ok (l : layout) : bool :=
+  match l with
+  | Leaf _ => true
+  | ELeaf s vw _ => negb (vw && sgn s)
+  | Struct fs => forallb (fun kf => format_ok (snd kf)) fs
+  | Union fs => forallb (fun kf => format_ok (snd kf)) fs
+  | Array e n => match n with O => true | _ => format_ok e end
+  | Flex _ fs => forallb (fun kf => format_ok (snd (snd kf))) fs
+  end.
+
+(* FlexibleLayout.__init__: ValueError when a field ends past the declared size *)
+Definition flex_new_ok (sz : Z) (fs : list (Z * (Z * layout))) : bool :=
+  forallb (fun kf => fst (snd kf) + layout_size (snd (snd kf)) <=? sz) fs.
